@@ -68,8 +68,31 @@ def forbidden_constructs():
     return hits
 
 
+import contextlib
+import fcntl
+
+
+@contextlib.contextmanager
+def exclusive(name='build'):
+    """Serialise translation / model regeneration / lake builds between concurrent invocations of the
+    checks (they share /verif/.cache and the lake workspace)."""
+    os.makedirs(os.path.join(VERIF, '.cache'), exist_ok=True)
+    f = open(os.path.join(VERIF, '.cache', '%s.lock' % name), 'w')
+    try:
+        fcntl.flock(f, fcntl.LOCK_EX)
+        yield
+    finally:
+        fcntl.flock(f, fcntl.LOCK_UN)
+        f.close()
+
+
 def prepare(repo='/repo'):
     """Extract (cached by tree hash) and regenerate the Lean model. Returns (cache_dir, emit_result)."""
+    with exclusive('prepare'):
+        return _prepare(repo)
+
+
+def _prepare(repo='/repo'):
     cache = extract.ensure(repo, log=log)
     keyfile = os.path.join(LEAN, 'PhQVerif', 'Generated', '.key')
     emit_json = os.path.join(cache, 'emit.json')
@@ -95,8 +118,9 @@ def _file_hash(p):
 def lake_build(targets, timeout=3600):
     """Build the given module targets. Returns (ok, output)."""
     cmd = ['lake', 'build'] + targets
-    p = subprocess.run(cmd, cwd=LEAN, stdout=subprocess.PIPE, stderr=subprocess.STDOUT, text=True,
-                       timeout=timeout)
+    with exclusive('lake'):
+        p = subprocess.run(cmd, cwd=LEAN, stdout=subprocess.PIPE, stderr=subprocess.STDOUT, text=True,
+                           timeout=timeout)
     return p.returncode == 0, p.stdout
 
 
